@@ -19,6 +19,7 @@ import (
 	"os"
 	"strings"
 	"sync"
+	"sync/atomic"
 	"time"
 
 	"github.com/lesismal/nbio"
@@ -63,10 +64,13 @@ func errKind(err error) string {
 }
 
 type rec struct {
-	mu  sync.Mutex
-	evs []hlib.Ev
-	cl  bool
+	mu   sync.Mutex
+	evs  []hlib.Ev
+	cl   bool
+	late bool
 }
+
+var lateHistories int32
 
 func (r *rec) add(e hlib.Ev) {
 	if _, ok := e["ts"]; !ok {
@@ -96,11 +100,27 @@ func runCore(hs []hist, unit time.Duration, slack time.Duration) {
 		byMode[h.Mode] = append(byMode[h.Mode], h)
 	}
 	var wgAll sync.WaitGroup
-	for mode, list := range byMode {
-		mode, list := mode, list
+	for mode, all := range byMode {
+		mode, all := mode, all
 		wgAll.Add(1)
 		go func() {
 			defer wgAll.Done()
+			// at most 32 histories run at the same time per engine: the harness has to keep its own schedule
+			for lo := 0; lo < len(all); lo += 32 {
+				hi := lo + 32
+				if hi > len(all) {
+					hi = len(all)
+				}
+				runCoreBatch(mode, all[lo:hi], unit, slack)
+			}
+		}()
+	}
+	wgAll.Wait()
+}
+
+func runCoreBatch(mode string, list []hist, unit time.Duration, slack time.Duration) {
+	{
+		func() {
 			cfg := nbio.Config{Network: "tcp", Addrs: []string{"127.0.0.1:0"}, NPoller: 2}
 			switch mode {
 			case "ET":
@@ -173,8 +193,16 @@ func runCore(hs []hist, unit time.Duration, slack time.Duration) {
 					start := time.Now()
 					backlog := false
 					for _, o := range h.Ops {
-						time.Sleep(time.Until(start.Add(time.Duration(o.T)*unit + unit/4)))
+						planned := start.Add(time.Duration(o.T)*unit + unit/4)
+						time.Sleep(time.Until(planned))
 						now := time.Now()
+						if now.Sub(planned) > unit/4 {
+							// the harness itself is late (machine overloaded): deadlines would be set after earlier ones have
+							// passed, the timing of this history says nothing about the library
+							r.mu.Lock()
+							r.late = true
+							r.mu.Unlock()
+						}
 						dl := now.Add(time.Duration(o.D)*unit + unit/2) // expires mid-tick: >= unit/2 away from every operation
 						switch o.Op {
 						case "setr":
@@ -224,7 +252,12 @@ func runCore(hs []hist, unit time.Duration, slack time.Duration) {
 				r := recs[conns[i]]
 				mu.Unlock()
 				r.mu.Lock()
-				emitBlock(h.ID, slack, r.evs)
+				if r.late {
+					atomic.AddInt32(&lateHistories, 1)
+					emitBlock(h.ID, slack, []hlib.Ev{{"ev": "harnesslate"}})
+				} else {
+					emitBlock(h.ID, slack, r.evs)
+				}
 				r.mu.Unlock()
 			}
 			for _, p := range peers {
@@ -238,7 +271,6 @@ func runCore(hs []hist, unit time.Duration, slack time.Duration) {
 			}
 		}()
 	}
-	wgAll.Wait()
 }
 
 // ---- keep-alive legs: the observer is a raw client that notes when the server closes ----
@@ -392,7 +424,7 @@ func main() {
 	}
 	wg.Wait()
 	tr.Close()
-	fmt.Printf("{\"histories\": %d}\n", n)
+	fmt.Printf("{\"histories\": %d, \"late\": %d}\n", n, atomic.LoadInt32(&lateHistories))
 	_ = strings.TrimSpace
 	os.Exit(0)
 }
